@@ -135,6 +135,7 @@ type FuncTr struct {
 	nonNil     map[string]bool
 	astLoops   []ast.Node
 	ordOfAst   []int // contract ordinal of each source loop
+	loopWarn   []string
 	rfLoops    []*LoopInfo
 	recvTy     types.Type
 	elemsEager map[string]bool
@@ -466,7 +467,10 @@ func (ft *FuncTr) findLoops() error {
 				found = n - 1 // the variable was renamed: fall back to the position
 			}
 			if found < 0 {
-				return unsupported(fmt.Sprintf("the contract's loop %d is the loop over %q, which the source no longer has", n, ft.c.LoopBinds[n]))
+				// the loop is gone: its invariants have nothing to attach to (reported like an unmatched anchored
+				// assertion: undecided unless an obligation fails)
+				ft.loopWarn = append(ft.loopWarn, fmt.Sprintf("loop %d of the contract is the loop over %q, which the source no longer has", n, ft.c.LoopBinds[n]))
+				continue
 			}
 			ft.ordOfAst[found] = n
 		}
@@ -829,6 +833,9 @@ func verifyFuncPass(w *World, fn *ssa.Function, c *Contract, eager map[string]bo
 	if res.Err == nil {
 		// an anchored assertion that matched no call was never checked: that is a hole, not a pass
 		// (reported as undecided; the function's other obligations are still checked)
+		for _, lw := range ft.loopWarn {
+			res.Warn = append(res.Warn, fmt.Sprintf("%s: %s", fn.String(), lw))
+		}
 		for i, b := range c.Binds {
 			if !ft.bindHit[i] {
 				res.Warn = append(res.Warn, fmt.Sprintf("%s: binds %s (%s:%d) matched no store in the function", fn.String(), b.Field, b.File, b.Line))
